@@ -46,6 +46,12 @@ structure Facts where
   `flush_timeout_seconds` exceeded on stalled storage), i.e. the call is not guarded by `ctx.Err()` -/
   workerTimeoutSetsFlag : Bool
   syncTimeoutSetsFlag : Bool
+  /-- `Close()` raises the flag when it drops queued flush tasks -/
+  closeDropSetsFlag : Bool := false
+  /-- the shutdown WAL purge is skipped while the flush-failure flag is up -/
+  purgeGuardedByFlag : Bool := false
+  /-- the tick resets the flag only after a replay pass without a rejected entry -/
+  resetRequiresCleanPass : Bool := false
   /-- effective order of the shutdown actions (hooks by priority, then components by priority) -/
   shutdown : List ShutAct
 deriving DecidableEq, Repr
@@ -132,6 +138,7 @@ structure St where
   stalled : Bool := false          -- failing writes do not error: they block until the flush context's deadline
   flag : Bool := false
   lastFull : Bool := false         -- the last write's enqueue attempt hit the queue-full arm
+  passFailed : Bool := false       -- the current replay pass kept a file because one of its entries was rejected
   lastSkip : Bool := false         -- ... hit the closing short-circuit (flushSkipClosing: dropped, write returns nil)
   obs : List Nat := []             -- observation: hours of successful file writes since failAfter was set
   -- ghosts
@@ -291,7 +298,7 @@ def replayEntriesF (c : Cfg) (fail : Nat) : St → Nat → List Entry → St × 
 def replayFileF (c : Cfg) (fail : Nat) (acc : St × Nat) (f : WFile) : St × Nat :=
   ((if (replayEntriesF c fail acc.1 acc.2 f.entries).2.2 then (replayEntriesF c fail acc.1 acc.2 f.entries).1
     else { (replayEntriesF c fail acc.1 acc.2 f.entries).1 with
-             files := (replayEntriesF c fail acc.1 acc.2 f.entries).1.files ++ [f] }),
+             files := (replayEntriesF c fail acc.1 acc.2 f.entries).1.files ++ [f], passFailed := true }),
    (replayEntriesF c fail acc.1 acc.2 f.entries).2.1)
 
 def replayFilesF (c : Cfg) (minAge fail : Nat) (s : St) : St :=
@@ -302,7 +309,7 @@ def replayFilesF (c : Cfg) (minAge fail : Nat) (s : St) : St :=
 def tickActF (c : Cfg) (fail : Nat) (s : St) : TickAct → St
   | .purge => purgeOld c s
   | .replay => replayFilesF c c.minFileAge fail s
-  | .reset => { s with flag := false }
+  | .reset => if c.facts.resetRequiresCleanPass && s.passFailed then s else { s with flag := false }
 
 /-- maintenance tick during which the replay callback rejects invocation `fail` (RecoverWithOptions still
 returns nil, so the flag is reset) -/
@@ -331,8 +338,11 @@ def ageFlush (c : Cfg) (s : St) : St :=
 
 /-- `ArrowBuffer.Close`: the in-flight task finishes, the worker may still take `d` queued tasks
 (select race between ctx.Done and the queue), the rest is dropped, buffers are flushed synchronously -/
+def flagIf (b : Bool) (s : St) : St := if b then { s with flag := true } else s
+
 def dropQueueTail (c : Cfg) (d : Nat) (s : St) : St :=
-  (s.queue.take d).foldl (workerFlush c) { s with queue := [] }
+  flagIf (c.facts.closeDropSetsFlag && decide (d < s.queue.length))
+    ((s.queue.take d).foldl (workerFlush c) { s with queue := [] })
 
 def flushAllBufs (c : Cfg) (s : St) : St := flushBufs c { s with bufs := [] } s.bufs
 
@@ -352,7 +362,7 @@ def purgeAll (s : St) : St :=
            active := s.active.map (fun f => { f with entries := [] }) }
 
 def shutAct (c : Cfg) (d : Nat) (s : St) : ShutAct → St
-  | .purgeAll => if c.walOn then purgeAll s else s
+  | .purgeAll => if c.walOn && !(c.facts.purgeGuardedByFlag && s.flag) then purgeAll s else s
   | .bufClose => bufClose c s d
   | .walClose => if c.walOn then walClose c s else s
 
@@ -450,7 +460,8 @@ def stepUp (c : Cfg) (s : St) : Ev → St
   | .crash => crash s
   | _ => s
 
-def begin (s : St) (obs : List Nat) (d : Nat) : St := { s with obs := obs, lastAck := false, now := s.now + d }
+def begin (s : St) (obs : List Nat) (d : Nat) : St :=
+  { s with obs := obs, lastAck := false, passFailed := false, now := s.now + d }
 
 /-- events that need a running process are no-ops when it is down (and `restart` when it is up);
 every event except `adv` takes one second -/
